@@ -84,7 +84,7 @@ pub struct Case {
 
 pub fn gen_case(idx: u64) -> Case {
     let mut rng = Rng::for_case("C09", idx);
-    let mut lines: Vec<String> = vec!["#define MAC 77".into(), "#define FN(x) ((x)+1)".into(), "#define Z 9".into(), "#define QZ 'Z'".into(), "unsigned char out[24];".into(), "char *sp; char *sq;".into()];
+    let mut lines: Vec<String> = vec!["#define MAC 77".into(), "#define FN(x) ((x)+1)".into(), "#define Z 9".into(), "#define QZ 'Z'".into(), "#define TABC '\t'".into(), "unsigned char out[24];".into(), "char *sp; char *sq;".into()];
     let mut c = Case { src: String::new(), expect: vec![], chars: vec![], classes: vec![], positions: vec![], copy_from: None };
     let mut litno = 0usize; // order in which call-argument / table literals get cctmpN names
     let mut note = |c: &mut Case, l: &Lit| {
@@ -244,7 +244,7 @@ pub fn gen_case(idx: u64) -> Case {
             }
             5 => {
                 // character constants
-                let chs: Vec<(&str, i32)> = vec![("'a'", 97), ("'\\n'", 10), ("'\\\\'", 92), ("'\\''", 39), ("'\\0'", 0), ("' '", 32), ("'/'", 47), ("'#'", 35), ("'\\f'", 12), ("'\\t'", 9), ("'@'", 64), ("'*'", 42), ("'Z'", 90), ("QZ", 90), ("FN('Z')", 91), ("'\\a'", 7), ("'\\b'", 8), ("'\\v'", 11), ("'\\r'", 13), ("'\"'", 34), ("'\\\"'", 34), ("'\"'", 34)];
+                let chs: Vec<(&str, i32)> = vec![("'a'", 97), ("'\\n'", 10), ("'\\\\'", 92), ("'\\''", 39), ("'\\0'", 0), ("' '", 32), ("'/'", 47), ("'#'", 35), ("'\\f'", 12), ("'\\t'", 9), ("'@'", 64), ("'*'", 42), ("'Z'", 90), ("QZ", 90), ("TABC", 9), ("'\t'", 9), ("FN('Z')", 91), ("'\\a'", 7), ("'\\b'", 8), ("'\\v'", 11), ("'\\r'", 13), ("'\"'", 34), ("'\\\"'", 34), ("'\"'", 34)];
                 let (sp, v) = *rng.pick(&chs);
                 let name = format!("ck{}", item);
                 lines.push(format!("const char {} = {};", name, sp));
@@ -285,6 +285,11 @@ pub fn gen_case(idx: u64) -> Case {
         }
     }
     c.src = lines.join("\n") + "\n";
+    if idx % 5 == 0 {
+        // CR-LF line ends (also behind the backslash of a splice)
+        c.src = c.src.replace('\n', "\r\n");
+        c.positions.push("CR-LF line ends".into());
+    }
     c
 }
 
